@@ -175,207 +175,225 @@ def d2_unordered(ctx, idx):
     r = ctx.rule('D2.MATRIX', 'unordered grading: rows = inputs, columns = answers, cost = 1 - grade, results read back as '
                  '[row][col] in row order', floor=11)
     with r:
-        fi = idx.func(cm.LG_MOD + '.find_optimal_order')
-        if fi.params != ['check', 'answers', 'student_list']:
-            raise AnalysisError('find_optimal_order: parameters changed: %s' % fi.params)
-        # --- result matrix
-        mats = [(n, v) for n, v in lib.local_env(fi.node).items() if isinstance(v, ast.ListComp) and isinstance(v.elt, ast.ListComp)]
-        for n_ in sorted(lib.local_env(fi.node)):
-            acc = cm.accumulated_comp(fi, n_)
-            if acc is not None and isinstance(acc.elt, ast.ListComp):
-                mats.append((n_, acc))
-        if len(mats) != 1:
-            raise AnalysisError('find_optimal_order: expected one nested list comprehension (result matrix), found %d' % len(mats))
-        mname, outer = mats[0]
-        inner = outer.elt
-        where = lib.loc(fi, outer)
-        if len(outer.generators) != 1 or len(inner.generators) != 1 or outer.generators[0].ifs or inner.generators[0].ifs:
-            raise AnalysisError('find_optimal_order: result matrix comprehension has filters / several generators')
-        og, ig = outer.generators[0], inner.generators[0]
-        construct = 'find_optimal_order: result matrix rows'
-        if cm.is_name(og.iter, 'student_list') and cm.is_name(ig.iter, 'answers'):
-            r.ok(construct, 'one row per input, one column per answer', where)
-        elif cm.is_name(og.iter, 'answers') and cm.is_name(ig.iter, 'student_list'):
-            r.violation(construct, 'the matrix has one row per *answer* and one column per input: the solver\'s pairs are (answer, input), '
-                        'they come back sorted by answer, and the k-th result is reported in box k although it grades another input',
-                        where, expected='[[... for a in answers] for i in student_list]', found=short(outer, 90))
+        matrix_body(r, idx)
+
+
+def matrix_body(r, idx):
+    """C05.D2 (also run as C07.D8): what find_optimal_order hands to the solver and how it reads the answer back."""
+    fi = idx.func(cm.LG_MOD + '.find_optimal_order')
+    if fi.params != ['check', 'answers', 'student_list']:
+        raise AnalysisError('find_optimal_order: parameters changed: %s' % fi.params)
+    # --- result matrix
+    mats = [(n, v) for n, v in lib.local_env(fi.node).items() if isinstance(v, ast.ListComp) and isinstance(v.elt, ast.ListComp)]
+    for n_ in sorted(lib.local_env(fi.node)):
+        acc = cm.accumulated_comp(fi, n_)
+        if acc is not None and isinstance(acc.elt, ast.ListComp):
+            mats.append((n_, acc))
+    if len(mats) != 1:
+        raise AnalysisError('find_optimal_order: expected one nested list comprehension (result matrix), found %d' % len(mats))
+    mname, outer = mats[0]
+    inner = outer.elt
+    where = lib.loc(fi, outer)
+    if len(outer.generators) != 1 or len(inner.generators) != 1 or outer.generators[0].ifs or inner.generators[0].ifs:
+        raise AnalysisError('find_optimal_order: result matrix comprehension has filters / several generators')
+    og, ig = outer.generators[0], inner.generators[0]
+    construct = 'find_optimal_order: result matrix rows'
+    if cm.is_name(og.iter, 'student_list') and cm.is_name(ig.iter, 'answers'):
+        r.ok(construct, 'one row per input, one column per answer', where)
+    elif cm.is_name(og.iter, 'answers') and cm.is_name(ig.iter, 'student_list'):
+        r.violation(construct, 'the matrix has one row per *answer* and one column per input: the solver\'s pairs are (answer, input), '
+                    'they come back sorted by answer, and the k-th result is reported in box k although it grades another input',
+                    where, expected='[[... for a in answers] for i in student_list]', found=short(outer, 90))
+    else:
+        r.undecided(construct, 'rows over `%s`, columns over `%s`' % (short(og.iter), short(ig.iter)), where)
+    cell = inner.elt
+    construct = 'find_optimal_order: matrix cell'
+    if isinstance(cell, ast.Call) and cm.is_name(cell.func, 'check') and len(cell.args) == 2 and not cell.keywords \
+            and all(isinstance(a, ast.Name) for a in cell.args):
+        src = {}
+        for g in (og, ig):
+            if isinstance(g.target, ast.Name) and isinstance(g.iter, ast.Name):
+                src[g.target.id] = g.iter.id
+        got = [src.get(a.id) for a in cell.args]
+        if got == ['answers', 'student_list']:
+            r.ok(construct, 'check(answer, input)', lib.loc(fi, cell))
+        elif got == ['student_list', 'answers']:
+            r.violation(construct, 'check is called as check(input, answer): the student text is used as the answer and the answer '
+                        'as the submission', lib.loc(fi, cell), expected='check(answer, input)', found=short(cell))
         else:
-            r.undecided(construct, 'rows over `%s`, columns over `%s`' % (short(og.iter), short(ig.iter)), where)
-        cell = inner.elt
-        construct = 'find_optimal_order: matrix cell'
-        if isinstance(cell, ast.Call) and cm.is_name(cell.func, 'check') and len(cell.args) == 2 and not cell.keywords \
-                and all(isinstance(a, ast.Name) for a in cell.args):
-            src = {}
-            for g in (og, ig):
-                if isinstance(g.target, ast.Name) and isinstance(g.iter, ast.Name):
-                    src[g.target.id] = g.iter.id
-            got = [src.get(a.id) for a in cell.args]
-            if got == ['answers', 'student_list']:
-                r.ok(construct, 'check(answer, input)', lib.loc(fi, cell))
-            elif got == ['student_list', 'answers']:
-                r.violation(construct, 'check is called as check(input, answer): the student text is used as the answer and the answer '
-                            'as the submission', lib.loc(fi, cell), expected='check(answer, input)', found=short(cell))
-            else:
-                r.undecided(construct, 'arguments of `%s` not traced to the generators' % short(cell), lib.loc(fi, cell))
-        else:
-            r.undecided(construct, 'cell `%s` is not check(a, i)' % short(cell), lib.loc(fi, cell))
-        # --- cost
-        mc = lib.one_call(fi, 'make_cost_matrix')
-        construct = 'find_optimal_order: make_cost_matrix'
-        r.check(len(mc.args) >= 1 and cm.is_name(mc.args[0], mname), construct + ' profit matrix', 'the result matrix',
-                'the cost matrix is not built from the result matrix (`%s`)' % short(mc), lib.loc(fi, mc))
-        inv = lib.get_kw(mc, 'inversion_function', 1)
-        cost_fi = None
-        if isinstance(inv, ast.Name):
-            targets, how = idx.resolve_call(fi, ast.Call(func=inv, args=[], keywords=[]))
-            cost_fi = targets[0] if targets and not isinstance(targets[0], tuple) else None
-        if inv is None:
-            r.violation('find_optimal_order: cost function', 'no cost function is passed: munkres inverts with max - x on result '
-                        '*dictionaries*, which fails', lib.loc(fi, mc))
-        elif isinstance(inv, ast.Lambda):
-            _cost_expr(r, fi, inv.body, inv.args.args[0].arg if inv.args.args else None, lib.loc(fi, inv))
-        elif cost_fi is None:
-            r.undecided('find_optimal_order: cost function', 'cost function `%s` not resolved' % short(inv), lib.loc(fi, mc))
-        else:
-            p0 = cost_fi.params[0] if cost_fi.params else None
-            paths = nf.decision_paths(cost_fi.node.body)
-            n = 0
-            for p in paths:
-                if p.leaf.kind == 'ret':
-                    n += 1
-                    _cost_expr(r, cost_fi, p.leaf.expr, p0, lib.loc(cost_fi, p.leaf.stmt))
-                elif p.leaf.kind == 'fall':
-                    r.violation('find_optimal_order: cost function', 'a path returns no cost (None)', cost_fi.loc)
-            # nested long-form results: the grade is consolidated before it is read
-            for st in walk_own(cost_fi.node):
-                if isinstance(st, ast.Assign) and any(cm.sub_key(t) == 'grade_decimal' for t in st.targets):
-                    v = st.value
-                    g = cm.guards_of(st, stop=cost_fi.node)
-                    construct = 'find_optimal_order: cost of a long-form result'
-                    where = lib.loc(cost_fi, st)
-                    guarded = any(nf.match("'input_list' in %s" % p0, x) is not None for x in g)
-                    if not (cm.is_call_to(v, 'consolidate_grades') and guarded):
-                        r.violation(construct, 'a nested result\'s grade is set to `%s`%s' % (short(v), '' if g else ' unconditionally'), where)
-                        continue
-                    a0 = cm.value_of(cost_fi, v.args[0]) if v.args else None
-                    ne = lib.get_kw(v, 'n_expect', 1)
-                    res = nf.classify("[_R['grade_decimal'] for _R in %s['input_list']]" % p0, a0) if a0 is not None else nf.UNRECOGNISED
-                    if isinstance(res, tuple):
-                        r.violation(construct, 'the grades consolidated for a long-form cell are `%s` (%s), not all grades of that cell\'s '
-                                    'input_list' % (short(a0), res[1]), where)
-                    elif res != nf.MATCH and isinstance(a0, ast.Subscript) and isinstance(a0.slice, ast.Slice) and nf.classify(
-                            "[_R['grade_decimal'] for _R in %s['input_list']]" % p0, cm.value_of(cost_fi, a0.value)) == nf.MATCH:
-                        r.violation(construct, 'only a slice (`%s`) of the cell\'s grades is consolidated: the cost of a nested result ignores '
-                                    'part of its boxes' % short(a0), where, expected='all grades of the cell', found=short(a0))
-                    elif res != nf.MATCH:
-                        r.undecided(construct, 'consolidated list `%s`' % short(a0), where)
-                    else:
-                        same_len = ne is not None and cm.is_call_to(ne, 'len', 1) and (
-                            nf.equal(nf.canon(ne.args[0]), nf.canon(v.args[0])) or
-                            nf.match("%s['input_list']" % p0, cm.value_of(cost_fi, ne.args[0])) is not None or
-                            nf.equal(nf.canon(cm.value_of(cost_fi, ne.args[0])), nf.canon(a0)))
-                        if ne is None or (isinstance(ne, ast.Constant) and ne.value is None) or same_len:
-                            r.ok(construct, 'consolidate_grades of all its entries, averaged over their own number', where)
-                        else:
-                            r.violation(construct, 'the cell\'s grades are consolidated with n_expect=`%s`, a quantity that is not the number of '
-                                        'grades of that cell: entries beyond it count as surplus answers (-1 each) and the average is taken over '
-                                        'the wrong count, so the costs handed to the solver are distorted and the assignment found is not the '
-                                        'one with maximal total credit' % short(ne), where,
-                                        expected='consolidate_grades(grades) (n_expect omitted or len(grades))', found=short(v))
-        # --- solver call and read-back
-        cc = lib.one_call(fi, 'compute')
-        carg = cm.deref(fi, cc.args[0]) if cc.args else None
-        r.check(carg is mc, 'find_optimal_order: solver argument', 'the cost matrix',
-                'Munkres.compute is given `%s`, not the cost matrix built from the results' % short(cc.args[0] if cc.args else cc), lib.loc(fi, cc))
-        fresh = isinstance(cc.func, ast.Attribute) and isinstance(cc.func.value, ast.Call) and nf.callee_name(cc.func.value) == 'Munkres'
-        if not fresh:
-            r.note('the solver object is not created per call; reuse safety rests on C06-D2')
-        rets = lib.returns_of(fi.node)
-        if len(rets) != 1:
-            raise AnalysisError('find_optimal_order: expected one return')
-        out = cm.deref(fi, rets[0].value)
-        construct = 'find_optimal_order: read-back'
-        where = lib.loc(fi, out)
-        if not (isinstance(out, ast.ListComp) and len(out.generators) == 1):
-            r.undecided(construct, 'returned value `%s` is not a comprehension over the solver\'s pairs' % short(out), where)
-        else:
-            g = out.generators[0]
-            it = cm.deref(fi, g.iter)
-            if it is not cc:
-                if isinstance(it, ast.Call) and nf.callee_name(it) in ('reversed', 'sorted') :
-                    r.violation(construct, 'the solver\'s pairs are reordered (`%s`) before results are read: position k is no longer the '
-                                'k-th input' % short(it), where)
+            r.undecided(construct, 'arguments of `%s` not traced to the generators' % short(cell), lib.loc(fi, cell))
+    else:
+        r.undecided(construct, 'cell `%s` is not check(a, i)' % short(cell), lib.loc(fi, cell))
+    # --- cost
+    mc = lib.one_call(fi, 'make_cost_matrix')
+    construct = 'find_optimal_order: make_cost_matrix'
+    r.check(len(mc.args) >= 1 and cm.is_name(mc.args[0], mname), construct + ' profit matrix', 'the result matrix',
+            'the cost matrix is not built from the result matrix (`%s`)' % short(mc), lib.loc(fi, mc))
+    inv = lib.get_kw(mc, 'inversion_function', 1)
+    cost_fi = None
+    if isinstance(inv, ast.Name):
+        targets, how = idx.resolve_call(fi, ast.Call(func=inv, args=[], keywords=[]))
+        cost_fi = targets[0] if targets and not isinstance(targets[0], tuple) else None
+    if inv is None:
+        r.violation('find_optimal_order: cost function', 'no cost function is passed: munkres inverts with max - x on result '
+                    '*dictionaries*, which fails', lib.loc(fi, mc))
+    elif isinstance(inv, ast.Lambda):
+        _cost_expr(r, fi, inv.body, inv.args.args[0].arg if inv.args.args else None, lib.loc(fi, inv))
+    elif cost_fi is None:
+        r.undecided('find_optimal_order: cost function', 'cost function `%s` not resolved' % short(inv), lib.loc(fi, mc))
+    else:
+        p0 = cost_fi.params[0] if cost_fi.params else None
+        paths = nf.decision_paths(cost_fi.node.body)
+        n = 0
+        for p in paths:
+            if p.leaf.kind == 'ret':
+                n += 1
+                _cost_expr(r, cost_fi, p.leaf.expr, p0, lib.loc(cost_fi, p.leaf.stmt))
+            elif p.leaf.kind == 'fall':
+                r.violation('find_optimal_order: cost function', 'a path returns no cost (None)', cost_fi.loc)
+        # nested long-form results: the grade is consolidated before it is read
+        for st in walk_own(cost_fi.node):
+            if isinstance(st, ast.Assign) and any(cm.sub_key(t) == 'grade_decimal' for t in st.targets):
+                v = st.value
+                g = cm.guards_of(st, stop=cost_fi.node)
+                construct = 'find_optimal_order: cost of a long-form result'
+                where = lib.loc(cost_fi, st)
+                guarded = any(nf.match("'input_list' in %s" % p0, x) is not None for x in g)
+                if not (cm.is_call_to(v, 'consolidate_grades') and guarded):
+                    r.violation(construct, 'a nested result\'s grade is set to `%s`%s' % (short(v), '' if g else ' unconditionally'), where)
+                    continue
+                a0 = cm.value_of(cost_fi, v.args[0]) if v.args else None
+                ne = lib.get_kw(v, 'n_expect', 1)
+                res = nf.classify("[_R['grade_decimal'] for _R in %s['input_list']]" % p0, a0) if a0 is not None else nf.UNRECOGNISED
+                if isinstance(res, tuple):
+                    r.violation(construct, 'the grades consolidated for a long-form cell are `%s` (%s), not all grades of that cell\'s '
+                                'input_list' % (short(a0), res[1]), where)
+                elif res != nf.MATCH and isinstance(a0, ast.Subscript) and isinstance(a0.slice, ast.Slice) and nf.classify(
+                        "[_R['grade_decimal'] for _R in %s['input_list']]" % p0, cm.value_of(cost_fi, a0.value)) == nf.MATCH:
+                    r.violation(construct, 'only a slice (`%s`) of the cell\'s grades is consolidated: the cost of a nested result ignores '
+                                'part of its boxes' % short(a0), where, expected='all grades of the cell', found=short(a0))
+                elif res != nf.MATCH:
+                    r.undecided(construct, 'consolidated list `%s`' % short(a0), where)
                 else:
-                    r.undecided(construct, 'iterates `%s`, not the solver result' % short(it), where)
-            elif g.ifs:
-                r.violation(construct, 'pairs are filtered: some inputs get no result', where)
-            else:
-                e = out.elt
-                tg = g.target
-                if isinstance(e, ast.Subscript) and isinstance(e.value, ast.Subscript) and cm.is_name(e.value.value, mname) \
-                        and isinstance(tg, ast.Tuple) and len(tg.elts) == 2 and all(isinstance(x, ast.Name) for x in tg.elts):
-                    first, second = e.value.slice, e.slice
-                    a, b = tg.elts[0].id, tg.elts[1].id
-                    if cm.is_name(first, a) and cm.is_name(second, b):
-                        r.ok(construct, 'result_matrix[row][col] for (row, col) in pairs', where)
-                    elif cm.is_name(first, b) and cm.is_name(second, a):
-                        r.violation(construct, 'results are read as result_matrix[col][row]: the reported entry is check(answer_row, input_col), '
-                                    'i.e. the grade of a different input/answer pair (IndexError when the matrix is not square)',
-                                    where, expected='%s[%s][%s]' % (mname, a, b), found=short(e))
+                    same_len = ne is not None and cm.is_call_to(ne, 'len', 1) and (
+                        nf.equal(nf.canon(ne.args[0]), nf.canon(v.args[0])) or
+                        nf.match("%s['input_list']" % p0, cm.value_of(cost_fi, ne.args[0])) is not None or
+                        nf.equal(nf.canon(cm.value_of(cost_fi, ne.args[0])), nf.canon(a0)))
+                    if ne is None or (isinstance(ne, ast.Constant) and ne.value is None) or same_len:
+                        r.ok(construct, 'consolidate_grades of all its entries, averaged over their own number', where)
                     else:
-                        r.undecided(construct, 'element `%s`' % short(e), where)
-                else:
-                    r.undecided(construct, 'element `%s` / target `%s`' % (short(e), short(tg)), where)
-        # --- make_cost_matrix keeps orientation and order
-        mfi = idx.func(cm.MUNKRES_MOD + '.make_cost_matrix')
-        _cost_matrix_shape(r, mfi)
-        # --- the solver emits (row, col) in increasing row order
-        ex = cm.extraction_facts(idx)
-        comp = ex.fi
-        construct = 'Munkres.compute: pair order'
-        if not ex.nest or len(ex.nest) != 2:
-            r.undecided(construct, 'result loop nest not recognised', comp.loc)
-        else:
-            outer_var = ex.nest[0][0]
-            fwd = all(cm.is_call_to(it_, 'range', 1) for v_, it_, n_ in ex.nest)
-            if not fwd:
-                r.undecided(construct, 'result loops do not run over range(k)', lib.loc(comp, ex.nest[0][2]))
-            elif outer_var == ex.row_idx.id and ex.emit_kind == 'append':
-                r.ok(construct, 'outer loop over rows, pairs appended: increasing row order', lib.loc(comp, ex.nest[0][2]))
-            elif outer_var == ex.col_idx.id:
-                r.violation(construct, 'the outer result loop runs over columns: pairs come back sorted by answer, so find_optimal_order '
-                            'reports the k-th pair in box k although it grades another input', lib.loc(comp, ex.nest[0][2]),
-                            expected='for row: for col:', found='for col: for row:')
-            elif ex.emit_kind == 'prepend':
-                r.violation(construct, 'pairs are inserted at the front: they come back in decreasing row order, so results are reported '
-                            'in reversed boxes', lib.loc(comp, ex.emit_node))
+                        r.violation(construct, 'the cell\'s grades are consolidated with n_expect=`%s`, a quantity that is not the number of '
+                                    'grades of that cell: entries beyond it count as surplus answers (-1 each) and the average is taken over '
+                                    'the wrong count, so the costs handed to the solver are distorted and the assignment found is not the '
+                                    'one with maximal total credit' % short(ne), where,
+                                    expected='consolidate_grades(grades) (n_expect omitted or len(grades))', found=short(v))
+    # --- solver call and read-back
+    cc = lib.one_call(fi, 'compute')
+    carg = cm.deref(fi, cc.args[0]) if cc.args else None
+    r.check(carg is mc, 'find_optimal_order: solver argument', 'the cost matrix',
+            'Munkres.compute is given `%s`, not the cost matrix built from the results' % short(cc.args[0] if cc.args else cc), lib.loc(fi, cc))
+    fresh = isinstance(cc.func, ast.Attribute) and isinstance(cc.func.value, ast.Call) and nf.callee_name(cc.func.value) == 'Munkres'
+    if not fresh:
+        r.note('the solver object is not created per call; reuse safety rests on C06-D2')
+    rets = lib.returns_of(fi.node)
+    if len(rets) != 1:
+        raise AnalysisError('find_optimal_order: expected one return')
+    out = cm.deref(fi, rets[0].value)
+    construct = 'find_optimal_order: read-back'
+    where = lib.loc(fi, out)
+    if not (isinstance(out, ast.ListComp) and len(out.generators) == 1):
+        r.undecided(construct, 'returned value `%s` is not a comprehension over the solver\'s pairs' % short(out), where)
+    else:
+        g = out.generators[0]
+        it = cm.deref(fi, g.iter)
+        if it is not cc:
+            if isinstance(it, ast.Call) and nf.callee_name(it) in ('reversed', 'sorted') :
+                r.violation(construct, 'the solver\'s pairs are reordered (`%s`) before results are read: position k is no longer the '
+                            'k-th input' % short(it), where)
             else:
-                r.undecided(construct, 'emission `%s` not recognised' % short(ex.emit_node), lib.loc(comp, ex.emit_node))
-        a, b = ex.pair.elts
-        r.check(a.id == ex.row_idx.id and b.id == ex.col_idx.id, 'Munkres.compute: pair roles', '(row, col)',
-                'pairs are emitted as `%s` with the row index second' % unparse(ex.pair), lib.loc(comp, ex.pair))
+                r.undecided(construct, 'iterates `%s`, not the solver result' % short(it), where)
+        elif g.ifs:
+            r.violation(construct, 'pairs are filtered: some inputs get no result', where)
+        else:
+            e = out.elt
+            tg = g.target
+            if isinstance(e, ast.Subscript) and isinstance(e.value, ast.Subscript) and cm.is_name(e.value.value, mname) \
+                    and isinstance(tg, ast.Tuple) and len(tg.elts) == 2 and all(isinstance(x, ast.Name) for x in tg.elts):
+                first, second = e.value.slice, e.slice
+                a, b = tg.elts[0].id, tg.elts[1].id
+                if cm.is_name(first, a) and cm.is_name(second, b):
+                    r.ok(construct, 'result_matrix[row][col] for (row, col) in pairs', where)
+                elif cm.is_name(first, b) and cm.is_name(second, a):
+                    r.violation(construct, 'results are read as result_matrix[col][row]: the reported entry is check(answer_row, input_col), '
+                                'i.e. the grade of a different input/answer pair (IndexError when the matrix is not square)',
+                                where, expected='%s[%s][%s]' % (mname, a, b), found=short(e))
+                else:
+                    r.undecided(construct, 'element `%s`' % short(e), where)
+            else:
+                r.undecided(construct, 'element `%s` / target `%s`' % (short(e), short(tg)), where)
+    # --- make_cost_matrix keeps orientation and order
+    mfi = idx.func(cm.MUNKRES_MOD + '.make_cost_matrix')
+    _cost_matrix_shape(r, mfi)
+    # --- the solver emits (row, col) in increasing row order
+    ex = cm.extraction_facts(idx)
+    comp = ex.fi
+    construct = 'Munkres.compute: pair order'
+    if not ex.nest or len(ex.nest) != 2:
+        r.undecided(construct, 'result loop nest not recognised', comp.loc)
+    else:
+        outer_var = ex.nest[0][0]
+        fwd = all(cm.is_call_to(it_, 'range', 1) for v_, it_, n_ in ex.nest)
+        if not fwd:
+            r.undecided(construct, 'result loops do not run over range(k)', lib.loc(comp, ex.nest[0][2]))
+        elif outer_var == ex.row_idx.id and ex.emit_kind == 'append':
+            r.ok(construct, 'outer loop over rows, pairs appended: increasing row order', lib.loc(comp, ex.nest[0][2]))
+        elif outer_var == ex.col_idx.id:
+            r.violation(construct, 'the outer result loop runs over columns: pairs come back sorted by answer, so find_optimal_order '
+                        'reports the k-th pair in box k although it grades another input', lib.loc(comp, ex.nest[0][2]),
+                        expected='for row: for col:', found='for col: for row:')
+        elif ex.emit_kind == 'prepend':
+            r.violation(construct, 'pairs are inserted at the front: they come back in decreasing row order, so results are reported '
+                        'in reversed boxes', lib.loc(comp, ex.emit_node))
+        else:
+            r.undecided(construct, 'emission `%s` not recognised' % short(ex.emit_node), lib.loc(comp, ex.emit_node))
+    a, b = ex.pair.elts
+    r.check(a.id == ex.row_idx.id and b.id == ex.col_idx.id, 'Munkres.compute: pair roles', '(row, col)',
+            'pairs are emitted as `%s` with the row index second' % unparse(ex.pair), lib.loc(comp, ex.pair))
 
 
 def _cost_expr(r, fi, expr, p0, where):
+    """The cost handed to the solver must be a strictly decreasing affine function of grade_decimal (exact arithmetic)."""
     construct = 'find_optimal_order: cost function'
-    res = nf.classify("1 - %s['grade_decimal']" % (p0 or '_R'), expr)
-    if res == nf.MATCH:
-        r.ok(construct, '1 - grade_decimal', where)
-        return
     e = nf.canon(expr)
-    if cm.sub_key(e) == 'grade_decimal':
-        r.violation(construct, 'the cost handed to the solver is the grade itself: the solver *minimises* cost, so the worst '
-                    'assignment is chosen', where, expected='1 - result[\'grade_decimal\']', found=short(expr))
-    elif isinstance(res, tuple):
-        r.violation(construct, res[1] + ': the solver no longer maximises total credit', where,
-                    expected='1 - result[\'grade_decimal\']', found=short(expr))
-    elif isinstance(e, ast.BinOp) and isinstance(e.op, ast.Sub) and cm.sub_key(e.right) == 'grade_decimal' \
-            and isinstance(e.left, ast.Constant) and isinstance(e.left.value, (int, float)):
-        r.ok(construct, 'constant - grade_decimal (same arg-min)', where)
-    elif isinstance(e, ast.UnaryOp) and isinstance(e.op, ast.USub) and cm.sub_key(e.operand) == 'grade_decimal':
-        r.violation(construct, 'costs are negative (-grade): the solver is specified for non-negative costs', where)
+
+    def is_grade(n):
+        return cm.sub_key(n) == 'grade_decimal' and (p0 is None or cm.is_name(n.value, p0))
+    res = cm.affine_in_grade(e, is_grade)
+    want = "a * (1 - result['grade_decimal']) + b with a > 0"
+    if res is None:
+        r.undecided(construct, 'cost expression `%s` not recognised as a function of grade_decimal' % short(expr), where)
+    elif res[0] == 'lossy':
+        r.violation(construct, 'the cost is passed through %s, a non-injective (rounding/truncating) transformation of 1 - grade: distinct '
+                    'credits collapse to the same cost, so the assignment is optimised over rounded credits while the grades are summed '
+                    'unrounded -- the minimum-cost matching is no longer the maximum-credit one' % res[1], where,
+                    expected=want, found=short(expr))
     else:
-        r.undecided(construct, 'cost expression `%s` not recognised' % short(expr), where)
+        kind, a, b = res
+        if a < 0:
+            if a + b < 0:
+                r.undecided(construct, 'costs `%s` can be negative (%g at full credit): outside the stated precondition of the solver' % (short(expr), a + b), where)
+            else:
+                r.ok(construct, '1 - grade_decimal' if (a, b) == (-1.0, 1.0) else
+                     'strictly decreasing affine function of grade_decimal (%g * g + %g): same arg-min as 1 - g' % (a, b), where)
+        elif a == 0:
+            r.violation(construct, 'the cost `%s` does not depend on the grade: every assignment costs the same' % short(expr), where,
+                        expected=want, found=short(expr))
+        elif (a, b) == (1.0, 0.0):
+            r.violation(construct, 'the cost handed to the solver is the grade itself: the solver *minimises* cost, so the worst '
+                        'assignment is chosen', where, expected='1 - result[\'grade_decimal\']', found=short(expr))
+        else:
+            r.violation(construct, 'the cost `%s` *increases* with the grade (%g * g %+g): the solver minimises cost, so it no longer '
+                        'maximises total credit' % (short(expr), a, b), where, expected=want, found=short(expr))
 
 
 def _cost_matrix_shape(r, mfi):
@@ -1192,7 +1210,7 @@ def d7_solver(ctx, idx):
     reference (C06.D2 INIT, C06.D3 RESULT, C06.D4 STEPS) here as well, so a change of the solver is reported under this id."""
     from . import c06
     r = ctx.rule('D7.SOLVER', 'the assignment solver equals the reviewed Munkres reference (state re-initialised per solve, '
-                 'result extraction, step table, per-cell step effects) -- a pin to the reference, not a proof of optimality', floor=72)
+                 'result extraction, step table, per-cell step effects) -- a pin to the reference, not a proof of optimality', floor=73)
     with r:
         c06.solver_rules(r, idx)
 
@@ -1220,6 +1238,9 @@ MUTANTS = [
     Mutant('cost-is-credit-plus-one', LG, "        return 1 - result['grade_decimal']", "        return 1 + result['grade_decimal']", 'D2'),
     Mutant('cost-consolidated-over-outer-count', LG, "            result['grade_decimal'] = consolidate_grades(grades)\n", "            result['grade_decimal'] = consolidate_grades(grades, len(answers))\n", 'D2'),
     Mutant('cost-consolidates-first-grade-only', LG, "            result['grade_decimal'] = consolidate_grades(grades)\n", "            result['grade_decimal'] = consolidate_grades(grades[:1])\n", 'D2'),
+    Mutant('cost-truncated-percent', LG, "        return 1 - result['grade_decimal']", "        return int(100 * (1 - result['grade_decimal']))", 'D2'),
+    Mutant('cost-rounded', LG, "        return 1 - result['grade_decimal']", "        return round(1 - result['grade_decimal'], 2)", 'D2'),
+    Mutant('cost-floor-division', LG, "        return 1 - result['grade_decimal']", "        return (100 - 100 * result['grade_decimal']) // 10", 'D2'),
     Mutant('readback-transposed', LG, "[result_matrix[i][j] for i, j in indexes]", "[result_matrix[j][i] for i, j in indexes]", 'D2'),
     Mutant('readback-unpack-swapped', LG, "[result_matrix[i][j] for i, j in indexes]", "[result_matrix[i][j] for j, i in indexes]", 'D2'),
     Mutant('readback-reversed', LG, "[result_matrix[i][j] for i, j in indexes]", "[result_matrix[i][j] for i, j in reversed(indexes)]", 'D2'),
@@ -1299,6 +1320,8 @@ BENIGN = [
     Benign('pairs-by-comprehension', MK, "        results = []\n        for i in range(self.original_length):\n            for j in range(self.original_width):\n                if self.marked[i][j] == 1:\n                    results += [(i, j)]\n\n        return results\n",
            "        return [(i, j) for i in range(self.original_length) for j in range(self.original_width) if self.marked[i][j] == 1]\n"),
     Benign('cost-explicit-own-count', LG, "            result['grade_decimal'] = consolidate_grades(grades)\n", "            result['grade_decimal'] = consolidate_grades(grades, len(grades))\n"),
+    Benign('cost-scaled-percent', LG, "        return 1 - result['grade_decimal']", "        return 100 * (1 - result['grade_decimal'])"),
+    Benign('cost-as-float', LG, "        return 1 - result['grade_decimal']", "        return float(1.0 - result['grade_decimal'])"),
     Benign('max-as-method', LG, "        max_score = np.max(scores)", "        max_score = scores.max()"),
     Benign('log-before-validation', LG, "        self.validate_submission(answers, student_list)\n\n        # Group the inputs",
            "        self.log('checking a list')\n        self.validate_submission(answers, student_list)\n\n        # Group the inputs"),
